@@ -158,7 +158,10 @@ int main(int argc, char **argv) {
 					ByteSink sink; sink.hard_limit = 200000; sink.limit = 64;
 					const char *outcome = "completed"; int ok = 1;
 					g_fetches = 0;
-					static const char *safe = "str";
+					// positional mode: every argument is a pointer that is valid for any conversion the format may name:
+					// read as a narrow string it is "s", read as a wide string (%ls) it is L"st"
+					static const wchar_t wsafe[] = L"st";
+					static const char *safe = (const char *)wsafe;
 					try {
 						if(positional) ok = frg_vformat(sink, buf, safe, safe, safe, safe, safe, safe, safe, safe, safe);
 						else dispatch(args, 0, [&](auto... xs) { ok = frg_vformat(sink, buf, xs...); });
